@@ -469,6 +469,12 @@ WriteAfterInner(b, i, j, v) ==
      /\ \E h \in (StmtAt(b, m, b[i].d + 1) + 1)..(m - 1) :
            ((IsHeader(b[h]) /\ ~Clause(b[h])) \/ Inline(b[h])) /\ StmtEnd(b, h) < m
 
+\* v is written inside a try statement (try block or handler) of the region
+WriteInTry(b, i, j, v) ==
+  \E m \in i..j :
+     /\ Mention(b[m], v) \in {"w", "rw"}
+     /\ \E h \in i..(m - 1) : b[h].k \in {"try", "exc"} /\ BlockEnd(b, h) >= m
+
 ShapeOf(b, i, j, v) ==
   LET fr == FirstReadLine(b, i, j, v)
       fw == FirstMentionLine(b, i, j, v)
@@ -482,7 +488,8 @@ ShapeOf(b, i, j, v) ==
       nb |-> v \in ResultsBE(FALSE, b, i, j),               \* live after without back edges
       li |-> v \in LiveInOnly(b, i, j),
       dw |-> v \in DW(b, i, j),
-      wai |-> WriteAfterInner(b, i, j, v)]
+      wai |-> WriteAfterInner(b, i, j, v),
+      wtry |-> WriteInTry(b, i, j, v)]
 \* (the binding adds "da": v is certainly bound on entry of the region)                             \* certainly written by the region
 
 -----------------------------------------------------------------------------
